@@ -191,6 +191,46 @@ _lib.lookup_function = _lookup_function
 _orig_split = {T: METHODS[(T, "split")] for T in (SStr, SBytes)}
 
 
+def _sepfree_registry(ex):
+    reg = ex.__dict__.setdefault("_sepfree", {})
+    if reg.get("$pc") is not ex.pc:  # a new path: forget the previous path's declarations
+        reg.clear()
+        reg["$pc"] = ex.pc
+    return reg
+
+
+def assume_sep_free(vc, s, sep):
+    """Scenario helper (proof mode): assume that the symbolic string s does not contain the literal sep, and remember it,
+    so that split() of a concatenation of such strings and literals is resolved structurally (no solver call)."""
+    vc.ex.assume(z3.Not(z3.Contains(s.t, _z(sep))))
+    lit = sep.decode("latin-1") if isinstance(sep, bytes) else sep
+    _sepfree_registry(vc.ex)[(s.t.get_id(), lit)] = s.t
+
+
+def _structural_split(it, s, sep_lit):
+    """parts of s.split(sep) when s is a concatenation of literals and strings declared sep-free; else None"""
+    reg = _sepfree_registry(it.ex)
+    t = simp(s.t)
+    kids = t.children() if (z3.is_app(t) and t.decl().kind() == z3.Z3_OP_SEQ_CONCAT) else [t]
+    parts = [[]]
+    for c in kids:
+        if z3.is_string_value(c):
+            pieces = str_value_to_pystr(c).split(sep_lit)
+            parts[-1].append(z3.StringVal(pieces[0]))
+            for p in pieces[1:]:
+                parts.append([z3.StringVal(p)])
+        elif (c.get_id(), sep_lit) in reg:
+            parts[-1].append(c)
+        else:
+            return None
+    T = SStr if isinstance(s, SStr) else SBytes
+    out = []
+    for p in parts:
+        p = [x for x in p if not (z3.is_string_value(x) and str_value_to_pystr(x) == "")]
+        out.append(T(z3.StringVal("") if not p else (p[0] if len(p) == 1 else z3.Concat(*p))))
+    return SList(out)
+
+
 def _split(it, s, *a, **k):
     T = SStr if isinstance(s, SStr) else SBytes
     c = s.concrete()
@@ -198,6 +238,11 @@ def _split(it, s, *a, **k):
     if not symbolic or len(a) != 1 or k or isinstance(a[0], SNoneT):
         return _orig_split[T](it, s, *a, **k)
     sep = a[0]
+    sc = sep.concrete()
+    if sc:
+        r = _structural_split(it, s, sc.decode("latin-1") if isinstance(sc, bytes) else sc)
+        if r is not None:
+            return r
     ls = slen(sep.t)
     n = slen(s.t)
     parts = []
